@@ -9,12 +9,26 @@ from .. import e1, harness, ic10, tables
 from . import base
 
 PROP = "C16"
+SOLVER = {'functions_encoded': ['structures_generated (all classes)', 'types_generated (all enums)', 'intrinsics (all wrappers)', 'utils.format_enum'], 'bounds': 'none: every table row (closed obligations)'}
 
 ASSUMPTIONS = [
     "no symbolic input: every obligation is a closed formula over one table row, discharged by z3 (bit-vector CRC-32 of the prefab name == stored hash; Distinct over the values of an enum) or by direct comparison of the real objects",
     "instruction signatures (which instruction has a destination register) come from the table of vf/ic10.py, cross-checked with webapp/src/ic10.json for the opcode set",
     "CRC-32: reflected polynomial 0xEDB88320, signed 32-bit result (independent of zlib)",
 ]
+
+
+Q = dict(queries=0, solver_s=0.0)
+
+
+def _chk(s):
+    import time as _t
+
+    t0 = _t.time()
+    r = s.check()
+    Q["queries"] += 1
+    Q["solver_s"] += _t.time() - t0
+    return r
 
 
 def crc32_bv(data: bytes):
@@ -49,7 +63,7 @@ def structure_obligations():
         stored = z3.BitVecVal(cls._hash & 0xFFFFFFFF, 32)
         s.push()
         s.add(want != stored)
-        r = s.check()
+        r = _chk(s)
         s.pop()
         if str(r) != "unsat":
             rows.append(dict(kind="hash_mismatch", cls=cname, prefab=cls._prefab_name, stored=cls._hash, crc=ic10.hash_signed(cls._prefab_name)))
@@ -160,7 +174,7 @@ def enum_obligations():
             continue
         s.push()
         s.add(z3.Not(z3.Distinct(*vals)))
-        r = s.check()
+        r = _chk(s)
         s.pop()
         if str(r) != "unsat":
             seen = {}
@@ -354,6 +368,7 @@ def run(tier: str) -> int:
         distinct_nontrivial=ns + ne + ni,
         structures=ns, enums=ne, intrinsics=ni,
         rows_failing=len(rs + re_ + ri),
+        queries=Q["queries"], solver_s=round(Q["solver_s"], 2),
         samples=[dict(structure="Furnace", prefab="StructureFurnace", crc32_signed=ic10.hash_signed("StructureFurnace"))],
         exhaustive=True,
     )
